@@ -376,14 +376,23 @@ class Tensor:
             if node not in visited_nodes:
                 visited_nodes.add(node)
                 for child in node._children:
-                    if child.requires_grad and child._grad is None:
+                    # leaves accumulate; a computed tensor starts every call from zero, so a gradient
+                    # left over from an earlier call (former root, retained tensor) never leaks into this one
+                    if child.requires_grad and (child._grad is None or not child.is_leaf):
                         child.zero_()
                     visit_node(child)
                 ordered_nodes.append(node)
         visit_node(self)
 
         # Go one tensor at a time and apply the chain rule to get its gradient
-        self.grad = grad
+        if not self.matches_shape(grad):
+            raise RuntimeError(f"Attempt to assign grad ({grad.shape}) to  a Tensor ({self.shape}) that has a different shape")
+        # own copy in this tensor's dtype: the caller's array is never stored nor written to
+        seed = np.array(grad.data, dtype=self.dtype)
+        if self.is_leaf and self._grad is not None:
+            self._grad = self._grad + seed
+        else:
+            self._grad = seed
         for i, node in enumerate(reversed(ordered_nodes)):
             if node.grad_fn is not None:
                 #print(node.grad_fn)
